@@ -503,6 +503,10 @@ func checkC10(c *core.Ctx) {
 			c10Globs(c, dir)
 			return
 		}
+		if cs.Mode == "glob-cycle" {
+			c10GlobCycles(c, dir)
+			return
+		}
 		if cs.Mode == "glob-wire" {
 			c10GlobWire(c, dir)
 			return
@@ -614,6 +618,7 @@ func checkC10(c *core.Ctx) {
 	}
 	if c.MineKey(8) {
 		c10GlobWire(c, filepath.Join(c.Scratch, "c10globwire"))
+		c10GlobCycles(c, filepath.Join(c.Scratch, "c10globcycle"))
 	}
 }
 
@@ -666,6 +671,72 @@ func (g incGraph) edgeList() []string {
 		}
 	}
 	return out
+}
+
+// c10GlobCycles: a glob that matches a file which is being included (an
+// ancestor other than the file the pattern stands in) closes a cycle like a
+// plain include does: one cycle verdict, the other matches are loaded.
+func c10GlobCycles(c *core.Ctx, dir string) {
+	tx := func(i int) string {
+		return fmt.Sprintf("\n2001-01-0%d glob cycle file %d\n    a:g%d  1 USD\n    a:cash  -1 USD\n", i+1, i, i)
+	}
+	worlds := []struct {
+		name  string
+		files map[string]string
+		want  []string // files loaded besides the root a.journal
+		cycle []string // targets of the cycle verdicts
+	}{
+		{"plain include, then a glob matching the root and a third file", map[string]string{"a.journal": "include b.journal\n" + tx(0), "b.journal": "include *.journal\n" + tx(1), "c.journal": tx(2)}, []string{"b.journal", "c.journal"}, []string{"a.journal"}},
+		{"plain include, then a glob matching only the root", map[string]string{"a.journal": "include b.journal\n" + tx(0), "b.journal": "include *.journal\n" + tx(1)}, []string{"b.journal"}, []string{"a.journal"}},
+		{"glob in the root and in a matched file", map[string]string{"a.journal": "include *.journal\n" + tx(0), "b.journal": "include *.journal\n" + tx(1), "c.journal": tx(2)}, []string{"b.journal", "c.journal"}, []string{"a.journal"}},
+		{"chain of two plain includes, then a glob matching both ancestors", map[string]string{"a.journal": "include b.journal\n" + tx(0), "b.journal": "include sub/c.journal\n" + tx(1), "sub/c.journal": "include ../*.journal\n" + tx(2)}, []string{"b.journal", "sub/c.journal"}, []string{"a.journal", "b.journal"}},
+	}
+	for _, w := range worlds {
+		_ = os.RemoveAll(dir)
+		_ = os.MkdirAll(filepath.Join(dir, "sub"), 0o755)
+		writeFiles(dir, w.files)
+		for _, mode := range []string{"Load", "LoadFromContent"} {
+			l := include.NewLoader()
+			var res *include.ResolvedJournal
+			var errs []include.LoadError
+			if mode == "Load" {
+				res, errs = l.Load(filepath.Join(dir, "a.journal"))
+			} else {
+				res, errs = l.LoadFromContent(filepath.Join(dir, "a.journal"), w.files["a.journal"])
+			}
+			c.Res.Evaluations++
+			c.Res.Nontrivial++
+			cas := map[string]any{"mode": "glob-cycle", "world": w.name}
+			if res == nil {
+				c.Violate("glob cycle|nil result|"+w.name, "returns a result", fmt.Sprint(errs), cas)
+				continue
+			}
+			var got []string
+			for path := range res.Files {
+				rel, _ := filepath.Rel(dir, path)
+				got = append(got, rel)
+			}
+			sort.Strings(got)
+			if fmt.Sprint(got) != fmt.Sprint(w.want) {
+				c.Violate("glob cycle|wrong file set|"+w.name, "a glob closing a cycle loads the other matches", fmt.Sprintf("%s (%s): loaded %v, expected %v", w.name, mode, got, w.want), cas)
+			}
+			var cyc, other []string
+			for _, e := range errs {
+				rel, _ := filepath.Rel(dir, e.Path)
+				switch e.Kind {
+				case include.ErrorParseError:
+				case include.ErrorCycleDetected:
+					cyc = append(cyc, rel)
+				default:
+					other = append(other, fmt.Sprintf("%d:%s", e.Kind, e.Message))
+				}
+			}
+			sort.Strings(cyc)
+			if fmt.Sprint(cyc) != fmt.Sprint(w.cycle) || len(other) > 0 {
+				c.Violate("glob cycle|verdicts|"+w.name, "a glob closing a cycle is reported as a cycle", fmt.Sprintf("%s (%s): cycle verdicts for %v (expected %v), other verdicts %v", w.name, mode, cyc, w.cycle, other), cas)
+			}
+		}
+	}
 }
 
 // c10Globs: fixed 5-file layout (root r.journal, siblings f1, f2, two in sub/)
